@@ -183,7 +183,11 @@ func BuildProps(s *Shape, o BuildOpts) map[string]*schema.PropertySchema {
 		}
 		ps := schema.NewPropertySchema(BuildWith(p.T, o), d, p.Required, p.ReqIf, p.ReqIfNot, p.Conflicts, p.Default, nil)
 		if p.Disabled {
-			ps.Disable("generated: disabled")
+			if len(p.Name)%2 == 0 {
+				ps.Disable("generated: disabled")
+			} else {
+				ps.Disabled = true // disabled without a reason: what a description that says only "disabled: true" gives
+			}
 		}
 		if p.EmptyDef {
 			ps.TreatEmptyAsDefaultValue()
